@@ -458,7 +458,7 @@ def check(ctx):
     cg = CallGraph(F)
     roots = [x for x in fam]
     scope = set(roots)
-    discharge = [{"fn": "repeat_with::RepeatWith<F, N> as ec_core::operator::Operator<Input>>::apply::{closure#", "what": "panicking::panic_fmt",
+    discharge = [{"fn": "repeat_with::RepeatWith<F, N> as ec_core::operator::Operator<Input>>::apply", "what": "panicking::panic_fmt",
                   "reason": "unreachable!: the Vec collected from take(N) over an endless repeat_with (or filled by N loop iterations) has exactly N elements, so try_into::<[_; N]> succeeds",
                   "guard": lambda c, s: (repeat_shape["ok"], "N-element shape verified by R14.4")}]
     audit_panics(ctx, "R14.4", scope, discharge, floor=1)
